@@ -12,7 +12,7 @@ from .obs import MachineryError
 INVS = ["TSound", "TStrictlyBetter", "TDepthOK", "Accepted"]
 
 
-def judge_group(gr, init_seqs, depth, can_expire, rel, traces, timeout=600, progress=False, yields=None, timedouts=None):
+def judge_group(gr, init_seqs, depth, can_expire, rel, traces, timeout=600, progress=False, yields=None, fulls=None):
     """traces: list of event lists.  Returns (accepted tids (1-based), TLCResult); result.outbad lists
     (tid, clause) verdict-level rejections of what was streamed."""
     tmp = tempfile.mkdtemp(prefix="qa_st_")
@@ -31,7 +31,9 @@ def judge_group(gr, init_seqs, depth, can_expire, rel, traces, timeout=600, prog
         with open(path, "w") as fd:
             for ti, t in enumerate(traces):
                 ys = [{"val": y[0], "s": y[1], "e": y[2], "rules": y[3], "score": y[4]} for y in (yields[ti] if yields else [])]
-                fd.write(json.dumps({"ev": [{k: v for k, v in e.items() if not k.startswith("_")} for e in t], "y": ys,
+                fl = fulls[ti] if fulls and fulls[ti] is not None else (yields[ti] if yields else [])
+                full = [{"val": y[0], "s": y[1], "e": y[2], "rules": y[3], "score": y[4]} for y in fl]
+                fd.write(json.dumps({"ev": [{k: v for k, v in e.items() if not k.startswith("_")} for e in t], "y": ys, "full": full,
                                      "timedout": int(t[-1].get("timedout", 0)) if t else 0}) + "\n")
         r = tlc.run_tlc("ST", cfg="ST.cfg", env={"QA_OBS_FILE": path}, workers=1, timeout=timeout, cwd=tmp,
                         libs=[tlc.SPECS], heap="2g")
@@ -57,6 +59,7 @@ def judge_group(gr, init_seqs, depth, can_expire, rel, traces, timeout=600, prog
 def judge_groups(groups, parallel=8):
     """groups: list of dict(gr, init, depth, can_expire, rel, traces). Returns list of (accepted, result)."""
     def one(g):
-        return judge_group(g["gr"], g["init"], g["depth"], g["can_expire"], g["rel"], g["traces"], yields=g.get("yields"))
+        return judge_group(g["gr"], g["init"], g["depth"], g["can_expire"], g["rel"], g["traces"], yields=g.get("yields"),
+                           fulls=[m.get("full") for m in g["meta"]])
     with ThreadPoolExecutor(max_workers=parallel) as ex:
         return list(ex.map(one, groups))
